@@ -97,6 +97,10 @@ def directed():
         ('fullstack', _chain(_w(1, 'mapper', s, 'same'),
                              {'op': 'fullstack', 'id': 2, 'n': 2, 'bases': [_w(21, 'mapper', S, 'same'), _w(22, 'mapper', S, 'same')]},
                              _w(3, 'mapper', S, 'same'))),
+        # one builder object shared by several persisted groups (hand-written operator expanded twice / per fold)
+        ('shared-builder-groups', _chain(dict(_w(1, 'mapper', S, 'same'), handmade=True), {'op': 'twice', 'id': 2},
+                                         {'op': 'fullstack', 'id': 3, 'n': 2, 'bases': [dict(_w(31, 'mapper', S, 'same'), handmade=True)]},
+                                         _w(4, 'mapper', S, 'same'))),
         # the apply path ends in a multi-input worker followed by a nested group without any apply-mode actor
         ('ensemble-then-train-only-group', {'op': 'chain', 'left': _chain(
             _w(1, 'mapper', s, 'same'),
